@@ -1016,6 +1016,7 @@ func (r *Runner) subshell(background bool) *Runner {
 		usedNew:        r.usedNew,
 		exit:           r.exit,
 		lastExit:       r.lastExit,
+		noErrExit:      r.noErrExit,
 
 		origStdout: r.origStdout, // used for process substitutions
 	}
